@@ -59,6 +59,17 @@ def s2():
                    F('author', 'FK', to='va.Author', null=True),
                    F('reviewers', 'M2M', to='va.Author',
                      related_name='+')])]))))
+    # the same with project-specific field classes (subclasses of the
+    # relation and character fields)
+    g = P(A('va', [
+        M('Author', [F('name', 'Char', max_length=20)]),
+        M('Book', [F('title', 'Char', max_length=20),
+                   F('author', 'FK', to='va.Author', null=True),
+                   F('reviewers', 'M2M', to='va.Author',
+                     related_name='+')])]))
+    for f in g['apps'][0]['models'][1]['fields']:
+        f['sub'] = True
+    out.append(('S2g', g))
     out.append(('S2c', P(A('va', [
         M('Book', [F('title', 'Char', max_length=20)]),
         M('BookNote', [F('book', 'O2O', to='va.Book', null=True),
